@@ -472,6 +472,99 @@ def observe_drawing(case):
     return rec
 
 
+def tokenise_v2000(text):
+    """a V2000 connection table as columns (CTfile definition), nothing of the library involved"""
+    lines = text.split('\n')
+    cl = lines[3]
+    na, nb = int(cl[0:3]), int(cl[3:6])
+    atoms = [{'s': l[31:34].strip(), 'dd': int(l[34:36]), 'ccc': int(l[36:39])} for l in lines[4:4 + na]]
+    bonds = [[int(l[0:3]), int(l[3:6]), int(l[6:9]), int(l[9:12])] for l in lines[4 + na:4 + na + nb]]
+    props = []
+    for l in lines[4 + na + nb:]:
+        if l.startswith('M  END'):
+            break
+        if l[:6] in ('M  CHG', 'M  RAD', 'M  ISO'):
+            body = l[9:]
+            props.append({'kind': l[3:6], 'nn': int(l[6:9]), 'ents': [[int(body[j + 1:j + 4]), int(body[j + 5:j + 8])] for j in range(0, len(body.rstrip()), 8)]})
+    return {'na': na, 'nb': nb, 'atoms': atoms, 'bonds': bonds, 'props': props}
+
+
+def fieldproj(m):
+    idx = {n: i + 1 for i, n in enumerate(m._atoms)}
+    return {'atoms': [{'s': a.atomic_symbol, 'c': a._charge, 'i': a._isotope or 0, 'r': 1 if a._is_radical else 0} for a in m._atoms.values()],
+            'bonds': [[idx[a], idx[b], int(bd._order)] for a, b, bd in m.bonds()]}
+
+
+def render_v2000(f):
+    out = ['', '', '', f'{f["na"]:3d}{f["nb"]:3d}  0  0  0  0            999 V2000']
+    for k, a in enumerate(f['atoms']):
+        out.append(f'{k * 1.5:10.4f}{0.:10.4f}{0.:10.4f} {a["s"]:3s}{a["dd"]:2d}{a["ccc"]:3d}  0  0  0  0  0  0  0{k + 1:3d}  0  0')
+    for a, b, o, st in f['bonds']:
+        out.append(f'{a:3d}{b:3d}{o:3d}{st:3d}  0  0  0')
+    for p in f['props']:
+        out.append(f'M  {p["kind"]}{p["nn"]:3d}' + ''.join(f' {a:3d} {v:3d}' for a, v in p['ents']))
+    out += ['M  END', '$$$$', '']
+    return '\n'.join(out)
+
+
+def observe_fields(case):
+    """C11 fields: 'w' the library writes a V2000 block for a molecule, 'r' it reads a block rendered from generated fields"""
+    from chython import smiles
+    from chython.files import SDFRead, SDFWrite
+    rec = {'dir': case['dir'], 'exc': '', 'f': {'na': 0, 'nb': 0, 'atoms': [], 'bonds': [], 'props': []}, 'm': {'atoms': [], 'bonds': []}}
+    if case['dir'] == 'w':
+        try:
+            m = smiles(case['smi'])
+            m.kekule()
+        except Exception as e:
+            return {'skip': type(e).__name__}
+        rec['m'] = fieldproj(m)
+        try:
+            buf = io.StringIO()
+            w = SDFWrite(buf)
+            w.write(m)
+            w.close()
+            rec['f'] = tokenise_v2000(buf.getvalue())
+        except Exception as e:
+            rec['exc'] = 'writer-or-columns:' + type(e).__name__
+        return rec
+    rec['f'] = case['f']
+    try:
+        back = next(iter(SDFRead(io.StringIO(render_v2000(case['f'])), ignore=True)), None)
+    except Exception as e:
+        rec['exc'] = 'well-formed-block-refused:' + type(e).__name__
+        return rec
+    if back is None:        # the generated atoms are isolated metal ions and a saturated carbon chain: nothing chemical to object to
+        rec['exc'] = 'well-formed-block-refused'
+        return rec
+    rec['m'] = fieldproj(back)
+    return rec
+
+
+def gen_fields(rnd):
+    """generated fields: isolated metal atoms (any charge is chemically acceptable) and a carbon chain; charges through the atom-block code
+    and / or 'M  CHG' entries, isotopes and radicals through property lines of 1..8 entries; code 4 (doublet radical in the atom block)
+    is not generated: the library reads it as no radical (recorded deviation, DESIGN 0.2)"""
+    iso = {'Fe': [54, 56, 57], 'Zr': [90, 91], 'Ti': [46, 48], 'U': [235, 238], 'Sn': [118, 120], 'C': [12, 13, 14]}
+    nm, nc = rnd.randint(1, 12), rnd.randint(0, 4)
+    atoms = [{'s': rnd.choice(['Fe', 'Zr', 'Ti', 'U', 'Sn']), 'dd': 0, 'ccc': rnd.choice([0, 0, 1, 2, 3, 5, 6, 7])} for _ in range(nm)] + [{'s': 'C', 'dd': 0, 'ccc': 0} for _ in range(nc)]
+    bonds = [[nm + j, nm + j + 1, 1, 0] for j in range(1, nc)]
+    props = []
+    def lines(kind, ents):
+        while ents:
+            k = rnd.randint(1, 8)
+            props.append({'kind': kind, 'nn': len(ents[:k]), 'ents': ents[:k]})
+            ents = ents[k:]
+    metals = list(range(1, nm + 1))
+    chg = rnd.sample(metals, rnd.randint(0, nm))
+    lines('CHG', [[k, rnd.choice([-4, -3, -2, -1, 1, 2, 3, 4])] for k in chg])
+    lines('ISO', [[k, rnd.choice(iso[atoms[k - 1]['s']])] for k in rnd.sample(range(1, nm + nc + 1), rnd.randint(0, nm + nc))])
+    if nc:
+        lines('RAD', [[nm + rnd.randint(1, nc), 2]])
+    rnd.shuffle(props)
+    return {'na': nm + nc, 'nb': len(bonds), 'atoms': atoms, 'bonds': bonds, 'props': props}
+
+
 def repo_files(case):
     """the repository's own test files (written by other programs) must be read without a foreign exception"""
     from chython.files import SDFRead, RDFRead, MRVRead
@@ -529,6 +622,13 @@ def run(ck):
                     for _ in range(rnd.randint(0, 3))}
             cases.append({'key': f'mol:{fmt}:{s}', 'kind': 'mol', 'fmt': fmt, 'mols': [s], 'coords': k % 4 != 3, 'thiele': k % 5 == 0, 'meta': meta,
                           'name': rand_text(rnd, rnd.randint(0, 40), alpha) if rnd.random() < .7 else '', 'rs': rnd.randrange(1 << 30)})
+    # metadata whose value lines look like structure-block lines (the block ends at its FIRST 'M  END'; later ones are data)
+    for k, s in enumerate(['CCO', 'c1ccccc1O', 'C[C@H](N)O', '[Na+].[Cl-]']):
+        for j, meta in enumerate([{'first': 'alpha', 'note': 'terminator is\nM  END of block', 'last': 'omega'}, {'a': 'M  END', 'b': 'x'}, {'a': 'x', 'b': 'y\nM  END\nz'},
+                                  {'k1': 'M  V30 END CTAB', 'k2': 'M  CHG  1   1   1\nM  END'}, {'k': 'v\nM  ENDING'}]):
+            for fmt in fmts:
+                cases.append({'key': f'mol:{fmt}:{s}:block-like-metadata-{j}', 'kind': 'mol', 'fmt': fmt, 'mols': [s], 'coords': k % 2 == 0, 'thiele': False, 'meta': meta, 'name': '',
+                              'rs': rnd.randrange(1 << 30)})
     # the default reader (no configuration of double bonds from the drawing): tetrahedral centres, also those that are stereogenic
     # only once other centres are labelled (pseudo-asymmetric chains, ring cis/trans pairs, bridged rings)
     dependent = ['C[C@H](O)[C@H](O)[C@@H](C)O', 'C[C@H](O)[C@@H](O)[C@@H](C)O', 'C[C@H]1CC[C@@H](O)CC1', 'C[C@H]1CC[C@H](O)CC1', 'O[C@H]1C[C@@H](O)C1', 'C[C@H]1C[C@@H](C)C[C@H](C)C1',
@@ -602,6 +702,28 @@ def run(ck):
         ck.ood('configuration-across-programs: skipped (allene / non-carbon stereocentre / unreadable)', len(wc) - len(keep))
         out = ck.validate('configuration-across-programs', 'Trace_Wedge', [c for c, _ in keep], [r for _, r in keep])
         ck.ood('configuration-across-programs: outside the symmetry domain', out['out'].count('"ood"'))
+    # the V2000 fields (CTfile columns): what the writer puts into the charge code / property lines, what the reader takes from them
+    labelled = special + ['[13CH3][13CH2][13CH2][13CH2][13CH2][13CH2][13CH2][13CH2][13CH2][13CH3]', '[CH2][CH][CH][CH][CH][CH][CH][CH][CH][CH2]', 'C[N+](C)(C)C.[Hf+4].[F-]',
+                          '[Zr+4].[Zr+4].[Si-4].[Si-4].[Cl-].[Na+]', '[Fe+3].[Fe+2].[O-2].[O-2]', '[Al+3].[N-3]', '[14CH3][O]', '[2H][C]([2H])[2H]', 'C[N+]([O-])=O', '[NH4+].[B-](F)(F)(F)F']
+    if not ck.replay:
+        mcf = lambda name, na: open(os.path.join(vlib.SPEC, 'mc', name + '.cfg')).read().replace('NA = 2', f'NA = {na}')
+        ck.model('mc-v2000-fields', 'MC_MdlFields', mcf('MC_MdlFields', 2 if ck.quick else 3))
+        ck.model('selftest-mc-v2000-fields-strict', 'MC_MdlFields', mcf('MC_MdlFields_strict', 2), expect_violation='StrictAgrees')
+    fcases = [{'key': f'fields:w:{s}', 'dir': 'w', 'smi': s} for s in labelled + chy.pick(corp, 150 if ck.quick else 3000, ck.seed, 9)]
+    frnd = random.Random(ck.seed * 31 + 5)
+    fcases += [{'key': f'fields:r:{k}', 'dir': 'r', 'f': gen_fields(frnd)} for k in range(300 if ck.quick else 6000)]
+    fcases = ck.select('v2000-fields', fcases)
+    if fcases:
+        res = vlib.pmap('checks.c11', 'observe_fields', fcases)
+        for r in res:
+            if '_observer_error' in r:
+                raise vlib.Machinery(r['_observer_error'] + r['_tb'])
+        keep = [(c, r) for c, r in zip(fcases, res) if 'skip' not in r]
+        ck.ood('v2000-fields: molecule unparsable / generated block refused by the reader', len(fcases) - len(keep))
+        out = ck.validate('v2000-fields', 'Trace_MdlFields', [c for c, _ in keep], [r for _, r in keep])
+        ck.count('v2000-fields: blocks whose strict CTfile reading (M  CHG zeroes unlisted atoms) differs', out['out'].count('"strict"'))
+        for c, r in keep:
+            ck.count('fields:' + c['dir'])
     if ck.want('repository-files') and not ck.replay:
         recs = repo_files({})
         ck.validate('repository-files', 'Trace_C11', [{'key': r['fmt']} for r in recs], recs)
@@ -609,4 +731,4 @@ def run(ck):
                        'coordinates come from RDKit\'s depiction (stereo-aware); molecules with an explicit hydrogen on a stereocentre are skipped (the recorded asymmetry)',
                        'metadata and titles are compared modulo the documented per-line strip']
     return ck.finish(rule='one case = one call sequence on a file, or one (object, format) round trip; distinct by key',
-                     trusted=['TLC', 'spec/sys/RecordReader.tla', 'spec/trace/Trace_C11.tla', 'RDKit for 2D layout and as the other program'])
+                     trusted=['TLC', 'spec/sys/RecordReader.tla', 'spec/trace/Trace_C11.tla', 'spec/sys/MdlFields.tla', 'spec/trace/Trace_MdlFields.tla', 'RDKit for 2D layout and as the other program'])
